@@ -54,7 +54,13 @@ def check_c05(tier, seed):
     run = nscheck.NsRun("C05", tier, seed)
     try:
         pipeline(run, tier)
-        run.cov["universe"] = "as C01; every operand pair including the root, ancestors/descendants, identical and missing operands"
+        # calls refused half-way by permissions (a non-administrator's RemoveAll of a subtree it may only partly empty):
+        # what stays behind must still have exact link counts
+        pedges = run.generate("perm3", 1 if tier == "quick" else 2, "perm3")
+        for t in ("osfs", "memfs"):
+            run.replay(pedges, t)
+        run.cov["universe"] = "as C01; every operand pair including the root, ancestors/descendants, identical and missing operands; " \
+                              "plus the configured permission trees of profile perm3 (RemoveAll/Remove/Rename by a non-administrator)"
         run.cov["exhaustive"] = True
         # only steps that break a clause of C05 by themselves are C05 violations
         return nscheck.finish(run, "C05", classify=lambda target, tr, reasons: bool(reasons))
@@ -153,7 +159,7 @@ def check_c03(tier, seed):
     try:
         run.build()
         L = 1 if tier == "quick" else 2
-        for prof in ("perm1", "perm2"):
+        for prof in ("perm1", "perm2", "perm3"):
             edges = run.generate(prof, L, "%s-%d" % (prof, L))
             sample_edges(run, edges)
             for t in ("osfs", "memfs"):
